@@ -225,6 +225,7 @@ func RunC08(env *Env, job *C08Job) *C08Res {
 				continue
 			}
 			res.Evals++
+			violBefore := len(res.Viol)
 			distinct[pipe+"|"+where] = true
 			ph.Name = "judge " + desc
 			dir := env.TempDir()
@@ -330,6 +331,59 @@ func RunC08(env *Env, job *C08Job) *C08Res {
 					if !ok || want != rig.DataKey(data) {
 						_, _, ferr := fetchAt(vs, r.Record, r.Block)
 						viol(fmt.Sprintf("C08|read-unsigned-content|%s|%s", pipe, where), ctx+fmt.Sprintf("\nOpen+Read+Close of %s reported no error and returned %s; the content signed under that header is %q (a restore of the same position reports: %v)", r.Name, rig.DataKey(data), want, ferr))
+						break
+					}
+				}
+			}
+			if !bad && len(res.Viol) == violBefore && strings.Contains(where, "payload") {
+				// the write path loads the existing content into the write cache first: a file whose content was altered must not
+				// become writable by simply trying again (the retried write must not store, and re-sign, unverified content)
+				rows, _ := rig.DumpIndex(vs.Index)
+				for _, r := range rows {
+					if vs.AFS == nil {
+						break
+					}
+					if r.Deleted == 1 || r.Typeflag != int64(tar.TypeReg) || r.Linkname != "" || r.Size == 0 {
+						continue
+					}
+					pax := map[string]string{}
+					_ = json.Unmarshal([]byte(r.Pax), &pax)
+					want, known := contents[pax["STFS.Signature"]]
+					name := rig.NormName(r.Name)
+					var data []byte
+					var rerr error
+					wrote := 0
+					_, pan := Guard(func() error {
+						f, err := vs.AFS.OpenFile(name, os.O_RDWR|os.O_APPEND, 0o644)
+						if err != nil {
+							return nil
+						}
+						for i := 0; i < 2; i++ {
+							if _, err := f.Write([]byte("+")); err == nil {
+								wrote++
+							}
+						}
+						_ = f.Close()
+						data, rerr = rig.ReadFile(vs.AFS, name)
+						return nil
+					})
+					vsync.Quiesce()
+					if pan != "" {
+						viol(fmt.Sprintf("C08|write-path-panic|%s|%s", pipe, where), ctx+"\n"+pan)
+						break
+					}
+					if rerr != nil || wrote == 0 {
+						continue
+					}
+					// the content now on record must be the signed content plus what was appended
+					okData := false
+					for k := 1; k <= 2; k++ {
+						if len(data) >= k && known && rig.DataKey(data[:len(data)-k]) == want && strings.Repeat("+", k) == string(data[len(data)-k:]) {
+							okData = true
+						}
+					}
+					if !okData {
+						viol(fmt.Sprintf("C08|write-path-stored-unsigned-content|%s|%s", pipe, where), ctx+fmt.Sprintf("\nOpenFile(%s, RDWR|APPEND); Write; Write; Close: %d of the two writes succeeded and the file now reads %s without error; the content signed under its header is %q", name, wrote, rig.DataKey(data), want))
 						break
 					}
 				}
